@@ -81,11 +81,17 @@ def check_collection(boxes, queries, sequence=None):
     # query is also asked after every other one (a result set handed out by reference, a
     # memo keyed too coarsely).  A failing case records the queries asked before it.
     asked = []
+    kept = [0, 0, 0, 0]                 # the caller's own query list, edited in place between calls
     for query in (list(queries) + list(queries)[::-1] if sequence is None else sequence):
         asked.append(query)
         again = f" [query #{len(asked)} asked of this index object]"
         try:
-            got = index.intersection(query)
+            if (len(asked) - 1) // 4 % 2 == 1:  # queries 5-8, 13-16, ... through the kept object
+                kept[:] = query
+                got = index.intersection(kept)
+                again += " [through one list object edited in place]"
+            else:
+                got = index.intersection(query)
         except Exception as exc:            # pylint: disable=broad-except
             out.append(("raise", f"{desc}.intersection({query}) raised {exc!r}{again}", query,
                         list(asked)))
